@@ -20,7 +20,7 @@ EVIDENCE = dict(
              "CPython: isinstance/len/==/dict lookup on standard data never raise; re.search result shipped as a table"],
     rule="schemas from the type-directed generator (depth<=3/4); values: witness, generated under lo/hi/rnd draws, "
          "one-step perturbations at every depth, hostile zoo alone and injected at a random position; "
-         "a case is non-trivial when the value is not the bare witness; distinct by repr(schema)+repr(value)")
+         "a case is non-trivial when the value is not the bare witness; distinct by repr(schema)+repr(value); thorough tier adds every other schema of the small scope x 121 values, outcome and full error lists")
 
 
 def oracle(ctx, cases):
@@ -93,6 +93,10 @@ def run(ctx):
         ctx.breakage("correspondence", "validator view (error multiset) differs between model and code",
                      schema=repr(c.schema), value=repr(c.value), detail=detail, request=c.req)
     ctx.cov["corr_disagreements"] = len(dis)
+    if not ctx.quick():
+        # thorough: the whole small scope (every other schema; C02 / C03 cover the rest), outcome and full error lists
+        from .. import smallscope
+        smallscope.validate_scope(ctx, view="errors", oracle=oracle, stride=2, what="outcome / error list")
     for c in cases[:200:40]:
         ctx.sample({"schema": repr(c.schema), "value": repr(c.value), "tag": c.tag,
                     "errors": [type(e).__name__ for e in (c.real or [])]})
